@@ -56,7 +56,11 @@ func runCase(t *testing.T, family string, idx int, params any, fn func(t *testin
 			res = rt.Result{Verdict: "inconclusive", Why: "case produced no verdict (subtest aborted)"}
 			fatal = true
 		}
-		if res.Sample == nil && idx < 48 {
+		if idx >= 48 {
+			res.Sample = nil // samples are only kept for the first cases of a family
+		} else if m, ok := res.Sample.(map[string]any); ok {
+			m["params"] = params
+		} else if res.Sample == nil {
 			res.Sample = params
 		}
 		c.End(family, idx, res)
@@ -69,6 +73,9 @@ func runCase(t *testing.T, family string, idx int, params any, fn func(t *testin
 // worldResult converts the outcome of a world into a case result.
 func worldResult(out hz.Outcome, nontrivial bool, extraSig string, events map[string]int) rt.Result {
 	res := rt.Result{Verdict: "held", Sig: out.Sig + extraSig, Nontrivial: nontrivial, Events: events}
+	if len(out.Trace) > 0 {
+		res.Sample = map[string]any{"observed_trace_head": out.Trace, "virtual_time_elapsed": out.Elapsed.String()}
+	}
 	if res.Events == nil {
 		res.Events = map[string]int{}
 	}
